@@ -969,7 +969,20 @@ func classify1(c genCase) caseInfo {
 
 const ruleText = "CodeGeneratorRequests over (a) 1-4 files linked into the tree's generated packages with their real dependency closure and (b) random schema sets (harness/schema: all syntaxes, well-known imports, custom options, (pb.go) features, source info, lazy, adversarial names, extra public imports; go_package option in several spellings or M parameters, several files per Go package); parameters drawn from default_api_level x paths x module x M x apilevelM x annotate_code x strip; oracle: 5 in-process runs byte-identical, 3 runs of the real cmd/protoc-gen-go binary built from the tree byte-identical to them, and per-file contents + file set unchanged when file_to_generate is permuted, proto_file is re-ordered topologically, or unrelated files are added. non-trivial = >= 2 files requested and generated, >= 1 import across Go packages, >= 1 message with >= 5 fields"
 
+// prebuildPlugin builds the real plugin binary before rapid starts: on a tree that has not been
+// built before (a fresh checkout, a scratch worktree) that takes minutes, and rapid would spend its
+// whole time budget on the first case and stop early.
+func prebuildPlugin(t *testing.T) {
+	if pbt.Skip() {
+		return
+	}
+	if _, err := gencode.BuildPlugin(); err != nil {
+		t.Fatalf("harness: %v", err)
+	}
+}
+
 func TestSchemaRequests(t *testing.T) {
+	prebuildPlugin(t)
 	pbt.Run(t, pbt.Prop[genCase]{
 		Name:       "schema-requests",
 		Rule:       ruleText,
@@ -982,6 +995,7 @@ func TestSchemaRequests(t *testing.T) {
 }
 
 func TestLinkedRequests(t *testing.T) {
+	prebuildPlugin(t)
 	pbt.Run(t, pbt.Prop[genCase]{
 		Name:       "linked-requests",
 		Rule:       ruleText,
